@@ -396,6 +396,41 @@ def run_member(ctx, p):
                               core.short(out2.data if isinstance(getattr(out2, 'data', None), list) else out2, 200)))
             except Exception as e2:
                 ctx.bad('deterministic', dict(sig, kind='second_evaluation_raised', exc=type(e2).__name__), '%s.%s second evaluation raised %r' % (c, name, e2))
+        if raised is None and name not in ('__iter__',) and isinstance(getattr(x, 'data', None), list) and len(x.data) >= 1 and hasattr(x, 'clear') \
+                and not (name.startswith('__i') and name in DUNDERS):
+            # equal inputs reached by another history: an object that held OTHER values when the member was first evaluated on it and
+            # was then given x's values through the documented list interface answers as x does (nothing remembered from before)
+            try:
+                y = make_recv(np.random.default_rng(p['seed'] + 1), c, m)
+                call_y = (lambda: getattr(y, name)) if kind == 'property' else \
+                    (lambda: getattr(type(y), name)(y, *clone(a))) if (name.startswith('__') and name in DUNDERS) else (lambda: getattr(y, name)(*clone(a)))
+                try:
+                    call_y()
+                except Exception:
+                    pass
+                route = p['seed'] % 3
+                src = clone(x_twin)
+                if route == 0 and len(y.data) == len(src.data):
+                    for i_ in range(len(src.data)):
+                        y[i_] = src[i_]
+                elif route == 1:
+                    y.clear()
+                    y.extend(src)
+                else:
+                    n0 = len(y.data)
+                    y.extend(src)
+                    for _ in range(n0):
+                        y.pop(0)
+                    y.reverse()
+                    y.reverse()
+                out3 = call_y()
+                ctx.judge('deterministic', same(out1, out3), dict(sig, kind='answer_depends_on_history', route=['setitem', 'clear+extend', 'extend+pop'][route]),
+                          lambda: '%s.%s: an object given the same values through %s answers %s, a fresh one %s' % (
+                              c, name, ['item assignment', 'clear() and extend()', 'extend() and pop(0)'][route],
+                              core.short(out3.data if isinstance(getattr(out3, 'data', None), list) else out3, 200),
+                              core.short(out1.data if isinstance(getattr(out1, 'data', None), list) else out1, 200)))
+            except Exception as e3:
+                ctx.cell('history_twin_not_built', c, name, type(e3).__name__)
         w = diff_where(before, after)
         opd = type(a[0]).__name__ if a else '-'
         ctx.judge('args_unchanged', w is None, dict(sig, kind='receiver_or_operand_modified', operand=opd, where=(w or '').split('.')[1] if w else None),
@@ -552,7 +587,57 @@ def run_history(ctx, p):
     ctx.nontrivial('history', p['seed'])
 
 
-RUNNERS = {'call': run_call, 'member': run_member, 'history': run_history}
+def run_mutator(ctx, p):
+    """the documented list-mutation methods act on their receiver only: after acc.extend(a) (append, insert, acc[i] = a, acc += a)
+    the argument is unchanged -- and stays unchanged when acc is mutated further (the receiver took the values, not the list)"""
+    c, how, m0, m1 = p['cls'], p['how'], p['m0'], p['m1']
+    rng = np.random.default_rng(p['seed'])
+    sm = S()
+    C = getattr(sm, c)
+    sig = dict(api='%s.%s' % (c, how), m='%d<-%d' % (m0, m1))
+    try:
+        acc = C.Empty() if m0 == 0 else make_recv(rng, c, m0)
+        a = make_recv(rng, c, m1)
+    except Exception:
+        ctx.ood('args_unchanged')
+        return
+    before = snapshot((a,))
+    try:
+        if how == 'extend':
+            acc.extend(a)
+        elif how == 'append':
+            acc.append(a)
+        elif how == 'insert':
+            acc.insert(0, a)
+        elif how == 'setitem':
+            acc[0] = a
+        elif how == 'iadd':
+            acc += a
+        elif how == 'ctor':
+            acc = C(a)
+        elif how == 'ctorlist':
+            acc = C([a])
+        raised = None
+    except Exception as e:
+        raised = e
+    w = diff_where(before, snapshot((a,)))
+    ctx.judge('args_unchanged', w is None, dict(sig, kind='argument_modified'), lambda: '%s(%s) with a receiver of %d value(s) modified its argument at %s' % (how, c, m0, w))
+    if raised is None and w is None and hasattr(acc, 'data') and isinstance(acc.data, list):
+        try:
+            acc.reverse()
+            if len(acc) > 0:
+                acc.pop()
+            acc.clear()
+            w2 = diff_where(before, snapshot((a,)))
+        except Exception as e:
+            w2 = 'later list mutation of the receiver raised %r' % e
+        ctx.judge('args_unchanged', w2 is None, dict(sig, kind='argument_modified_through_receiver'),
+                  lambda: 'after x.%s(a) on a receiver of %d value(s), reverse() / pop() / clear() on x modified a (%d values) at %s' % (how, m0, m1, w2))
+    ctx.cell('mutator', c, how, m0, m1)
+    ctx.nontrivial('mutator', c, how, m0, m1)
+
+
+RUNNERS = {'call': run_call, 'member': run_member, 'history': run_history, 'mutator': run_mutator}
 
 
 def setup(ctx):
@@ -575,6 +660,14 @@ def run(ctx):
                 rd = None if recv is None else [type(recv).__name__, [np.array(v) for v in recv.data]]
                 alt = build(rng, e, form)
                 drive(RUNNERS, ctx, 'call', dict(entry=ei, args=args, kwargs=kwargs, recv=rd, form=form, alt_args=alt[0], alt_kwargs=alt[1]))
+    for c in sorted(cat_multi()):
+        if not hasattr(getattr(S(), c), 'Empty'):
+            continue
+        for how in ('extend', 'append', 'insert', 'setitem', 'iadd', 'ctor', 'ctorlist'):
+            for m0, m1 in ((0, 1), (0, 3), (1, 1), (1, 3), (3, 1), (3, 3)):
+                i += 1
+                if ctx.mine(i):
+                    drive(RUNNERS, ctx, 'mutator', dict(cls=c, how=how, m0=m0, m1=m1, seed=int(rng.integers(1 << 30))))
     # random constructors: unchanged arguments only (kwargs carry the numpy seed)
     driven, skipped = 0, []
     for c in CLS:
